@@ -29,7 +29,7 @@ for pid in ALL:
 
 manifest = dict(
     version=1,
-    setup_cmd="/venv/bin/python harness/gen_tables.py && /venv/bin/python harness/gen_translate.py && /venv/bin/python harness/gen_translate_flows.py && /venv/bin/python harness/gen_translate_funcs.py && /venv/bin/python harness/gen_translate_enc.py && /venv/bin/python harness/gen_translate_dec.py && /venv/bin/python harness/gen_translate_stmt.py && /venv/bin/python harness/gen_translate_dstmt.py && cd lean && lake build",
+    setup_cmd="/venv/bin/python harness/gen_tables.py && /venv/bin/python harness/gen_translate.py && /venv/bin/python harness/gen_translate_flows.py && /venv/bin/python harness/gen_translate_funcs.py && /venv/bin/python harness/gen_translate_enc.py && /venv/bin/python harness/gen_translate_dec.py && /venv/bin/python harness/gen_translate_stmt.py && /venv/bin/python harness/gen_translate_dstmt.py && /venv/bin/python harness/gen_translate_stream.py && cd lean && lake build",
     hooks=dict(
         guard="PYJELLY_VERIF",
         enable="no source hooks are needed or installed: every observation is made in-process from the harness "
